@@ -131,6 +131,10 @@ pub enum SOp {
         /// also move the write capabilities into the first-generation table `namespaces-1`
         #[serde(default)]
         v1: bool,
+        /// leave the dropped tables behind empty instead of absent (an open that was interrupted
+        /// after it had created the tables and before it had filled them)
+        #[serde(default)]
+        truncate: bool,
     },
     /// observe everything observable about document `n`
     Observe { n: usize },
@@ -242,8 +246,9 @@ impl<'a> StoreWorld<'a> {
             // specification: head = greatest timestamp among the author's entries held
             self.lines.push(Line::oracle(format!("sheads 1 {nsh}"), format!("headts {}", heads_tok(&headts))));
         }
-        if self.focus == "C18" {
-            // key-ordered queries answered through the (rebuilt) by-key index
+        if self.focus == "C18" || self.focus == "C16" {
+            // key-ordered queries answered through the by-key index (rebuilt, C18; untouched by the
+            // removal of another document, C16)
             for (qt, q) in [
                 ("flat-ka * any - 0 1 0", iroh_docs::store::Query::all().include_empty()
                     .sort_by(iroh_docs::store::SortBy::KeyAuthor, iroh_docs::store::SortDirection::Asc).build()),
@@ -560,7 +565,7 @@ impl<'a> StoreWorld<'a> {
                     self.lines.push(Line::oracle(format!("shasnews 1 {} {}", self.nshex(*n), heads_tok(&toks)), imp));
                 }
             }
-            SOp::DropDerived { latest, by_key, v1 } => {
+            SOp::DropDerived { latest, by_key, v1, truncate } => {
                 if let Some(f) = &self.rs.file {
                     self.rs.store.flush()?;
                     let old = std::mem::replace(&mut self.rs.store, iroh_docs::store::Store::memory());
@@ -576,6 +581,16 @@ impl<'a> StoreWorld<'a> {
                             }
                         }
                         let _ = names;
+                        if *truncate {
+                            const LATEST: redb::TableDefinition<(&[u8; 32], &[u8; 32]), (u64, &[u8])> = redb::TableDefinition::new("latest-by-author-1");
+                            const BY_KEY: redb::TableDefinition<(&[u8; 32], &[u8], &[u8; 32]), ()> = redb::TableDefinition::new("records-by-key-1");
+                            if *latest {
+                                let _ = tx.open_table(LATEST)?;
+                            }
+                            if *by_key {
+                                let _ = tx.open_table(BY_KEY)?;
+                            }
+                        }
                         if *v1 {
                             // a database from before `namespaces-2`: id -> secret for the write capabilities
                             const V1: redb::TableDefinition<&[u8; 32], &[u8; 32]> = redb::TableDefinition::new("namespaces-1");
